@@ -15,7 +15,7 @@ E1_NOTE = "Trusted: the harness's reference model and canonical key (DESIGN.md a
 NOT_APPLICABLE = {}
 
 ENGINES = [
-    {'name': 'seqx', 'path': 'engine/mc.h', 'serves_properties': ['C01', 'C02', 'C03', 'C04', 'C07', 'C08', 'C12', 'C09', 'C13', 'C15', 'C19'], 'kind_free_text': 'explicit-state breadth-first closure search over the real library code; state = operation history replayed on fresh objects, deduplicated by a canonical serialisation of the real data structure; reference model + oracles on every transition'},
+    {'name': 'seqx', 'path': 'engine/mc.h', 'serves_properties': ['C01', 'C02', 'C03', 'C04', 'C07', 'C08', 'C12', 'C09', 'C10', 'C13', 'C15', 'C19'], 'kind_free_text': 'explicit-state breadth-first closure search over the real library code; state = operation history replayed on fresh objects, deduplicated by a canonical serialisation of the real data structure; reference model + oracles on every transition'},
 ]
 
 PROPS = {
@@ -132,6 +132,16 @@ PROPS = {
         'technique': 'explicit-state BFS to closure on the real code vs reference model + allocation-layer block accounting',
         'jobs': [{'world': 'vector', 'src': 'worlds/vector_world.c', 'lib': ['vector.c', 'array.c', 'memory.c'], 'flavours': RELDBG_ALWAYS}],
         'rule': 'breadth-first search to closure; quick: 6 element-size pairs, thorough: every element size 1..64; a state is non-trivial when elements are held and some vector has slack capacity',
+        'assumptions': ASSUME_E1,
+    },
+    'C10': {
+        'level': 'model_checking',
+        'claim': 'Exhaustive within scope: closure over set_str / insert_ch / insert_str_n / insert / append* / erase / substr / resize / reserve / swap / clear on two string objects (narrow and wide builds) over characters {a,b,NUL} with reference length <= 4 (thorough 6), positions {0,1,size-1,size,size+1,SIZE_MAX-1,SIZE_MAX} and counts {0,1,2,size,SIZE_MAX,SIZE_MAX-1,SIZE_MAX-size,SIZE_MAX-size+1,SIZE_MAX/4,SIZE_MAX/4+1,SIZE_MAX-pos}; every state compared with a reference buffer through size/at/str, find_ch/find_str/find/compare compared with libc on the reference.',
+        'note': E1_NOTE + ' erase/substr at pos == size: both an abort and the empty result are accepted (documentation silent). Inserting a string into itself is outside the domain.',
+        'technique': 'explicit-state BFS to closure on the real code vs reference string',
+        'jobs': [{'world': 'string', 'src': 'worlds/string_world.c', 'lib': ['string.c', 'vector.c', 'array.c', 'memory.c'], 'flavours': RELDBG_ALWAYS},
+                 {'world': 'wstring', 'src': 'worlds/string_world.c', 'wflags': ['-DWIDE'], 'lib': ['string.c', 'vector.c', 'array.c', 'memory.c'], 'flavours': RELDBG_ALWAYS}],
+        'rule': 'breadth-first search to closure; a state is non-trivial when string A holds at least two characters',
         'assumptions': ASSUME_E1,
     },
 }
